@@ -10,7 +10,7 @@ EXPLANATION = (
     'the two assemble() calls of main(), symbols.lock(), symbols.scope_reset(), pass = 2 and init() are executed. '
     'ADD-SYM: the pass-1 skip branch of add_bin8/16/32 advances the address by exactly the bytes the write branches emit. '
     'R-PASS: no encoding-relevant state written in pass 1 survives into pass 2. SYM-LOCK: Symbols::append is a no-op '
-    'returning success once the table is locked, and nothing unlocks it. DEFAULT-CPU: init() selects the default CPU through set_cpu(), so a source without CPU directive gets the complete cpu_list[] settings of msp430 (pass_1_write_disable for its memo) and cpu_list_index is never negative. MEMO-GOV: a value test that governs a pass-1 memo '
+    'returning success once the table is locked, and nothing unlocks it. DEFAULT-CPU: init() selects the default CPU through set_cpu(), so a source without CPU directive gets the complete cpu_list[] settings of msp430 (pass_1_write_disable for its memo) and cpu_list_index is never negative. VARLEN-EMIT: a variable-length (LEB128) emitter is not fed a symbol-derived value unless its length is fixed or a pass-1 memo is consulted. MEMO-THRESH: where pass 1 and pass 2 repeat a size decision with relational tests next to the memo, the tests are the same. SYM-SET: Symbols::set stores the new value whether or not the table is locked. MEMO-GOV: a value test that governs a pass-1 memo '
     'write governs in pass 2 only statements that consult the memo. MEMO-PAIR: a memo that is written is read. MEMO-SURVIVES: '
     'CPUs whose assembler writes the memo have pass_1_write_disable set (else add_bin overwrites it in pass 1). MEMO-ADDR: '
     'no memo access follows an emission of the same instruction (the address has moved). PASS-FLAG: no emission-controlling '
@@ -56,10 +56,53 @@ def symlock(prog):
     return RuleResult('SYM-LOCK', obs, 2, {})
 
 
+def symset(prog):
+    """SYM-SET: Symbols::set() re-assigns a `.set` symbol in both passes: the store `entry->address = address` exists and is
+    not control dependent on `locked` (the table is locked between the passes; a .set symbol that keeps its last pass-1 value
+    through pass 2 gives every use before its last assignment another value than in pass 1)."""
+    from nk.cfg import dominators
+    fn = prog.fn('Symbols::set')
+    obs = []
+    stores = [n for n in fn.nodes.values() if n['k'] == 'BinaryOperator' and n.get('op') == '=' and
+              strip(kids(n)[0]).get('n') == 'address' and strip(kids(n)[0])['k'] == 'MemberExpr']
+    if not stores:
+        obs.append(Ob('SYM-SET', fn.file, fn.line, fn.q, 'store-address', VIOLATED,
+                      'Symbols::set never stores entry->address: .set cannot change a symbol'))
+        return RuleResult('SYM-SET', obs, 1, {})
+    from rules.passsize import control_deps, _error_dead
+    cd, succ = control_deps(fn, set())
+    for st in stores:
+        w = fn.where.get(st['i'])
+        bad = None
+        seen = set()
+        work = [w[0]] if w else []
+        while work:
+            b = work.pop()
+            for (pc, ps_) in cd.get(b, ()):
+                if pc in seen:
+                    continue
+                seen.add(pc)
+                cn = fn.nodes.get(fn.blocks[pc].get('cond')) if 'cond' in fn.blocks[pc] else None
+                if cn is not None and any(x['k'] == 'MemberExpr' and x.get('n') == 'locked' for x in common_walk(cn)):
+                    bad = cn
+                work.append(pc)
+        obs.append(Ob('SYM-SET', fn.file, st['l'], fn.q, 'store-address', VIOLATED if bad is not None else DISCHARGED,
+                      '' if bad is None else '`%s` only runs under `%s`: once the table is locked (pass 2) .set no longer changes the symbol, '
+                      'so a symbol assigned twice has its last pass-1 value everywhere in pass 2' % (
+                          ' '.join(str(x) for x in ['entry->address = address']), 'locked test at line %d' % bad['l']),
+                      'the store is not control dependent on `locked`', False))
+    return RuleResult('SYM-SET', obs, 1, {})
+
+
+def common_walk(n):
+    from nk.facts import walk
+    return walk(n)
+
+
 def run(tier, t0):
     prog = common.program()
     cg = common.callgraph()
     results = [passes.interpass(prog), passes.addsym(prog), passes.rpass(prog, cg), passes.default_cpu(prog, cg), symlock(prog),
                passsize.memo_gov(prog), passsize.memo_pair(prog), passsize.memo_survives(prog, cg), passsize.memo_addr(prog),
-               passsize.pass_flag(prog), passsize.pass_size(prog)]
+               passsize.pass_flag(prog), passsize.pass_size(prog), passsize.memo_thresh(prog), symset(prog), passsize.varlen_emit(prog)]
     return report.finish('C02', tier, results, EXPLANATION, [], common.TRUSTED, t0)
